@@ -314,6 +314,8 @@ static int ws_decide(myth_thread_t th, void *ud){ (void)ud; ws_calls++;
 static myth_thread_t ws_steal(int rank){ int nw = myth_get_num_workers(); int v;
   if (nw <= 1) return 0;
   v = myth_wsapi_rand(); if (v == rank) v = (v + 1) % nw;
+  if (ws_mode == 3){   /* look before you steal: peek at the victim's oldest thread (hint cache), then take */
+    char buf[64]; size_t sz = sizeof buf; (void)myth_wsapi_runqueue_peek(v, buf, &sz); }
   return myth_wsapi_runqueue_take(v, ws_decide, 0); }
 static void quiesce(void){
   int guard = 0;
